@@ -141,6 +141,48 @@ pub struct StreamsState {
     pub(super) streams_blocked: [bool; 2],
 }
 
+#[cfg(feature = "quinn_rs_quinn_verif")]
+impl StreamsState {
+    /// Accounting projection for the verification snapshot (read-only)
+    pub(in crate::connection) fn verif_snap(&self) -> crate::connection::verif::StreamsSnap {
+        let mut send_offsets: Vec<(u64, u64, u64)> = self
+            .send
+            .iter()
+            .filter_map(|(id, s)| s.as_ref().map(|s| (id.0, s.pending.offset(), s.max_data)))
+            .collect();
+        send_offsets.sort_unstable();
+        let mut recv_state: Vec<(u64, u64, u64, u64, bool)> = self
+            .recv
+            .iter()
+            .filter_map(|(id, r)| {
+                r.as_ref().and_then(|r| r.as_open_recv()).map(|r| {
+                    (id.0, r.end, r.assembler.bytes_read(), r.verif_sent_max_stream_data(), r.stopped)
+                })
+            })
+            .collect();
+        recv_state.sort_unstable();
+        crate::connection::verif::StreamsSnap {
+            data_sent: self.data_sent,
+            max_data: self.max_data,
+            unacked_data: self.unacked_data,
+            send_window: self.send_window,
+            local_max_data: self.local_max_data,
+            sent_max_data: self.sent_max_data.into_inner(),
+            data_recvd: self.data_recvd,
+            receive_window: self.receive_window,
+            next: self.next,
+            max: self.max,
+            max_remote: self.max_remote,
+            allocated_remote_count: self.allocated_remote_count,
+            send_streams: self.send_streams,
+            n_send: self.send.len(),
+            n_recv: self.recv.len(),
+            send_offsets,
+            recv_state,
+        }
+    }
+}
+
 impl StreamsState {
     #[allow(unreachable_pub)] // fuzzing only
     pub fn new(
